@@ -933,6 +933,9 @@ def main():
         return 2
     with open(sys.argv[3], "w") as f:
         f.write(text)
+    for it in meta["items"]:
+        if it.get("stubbed"):
+            print("STUBBED (contract-only, its obligation is undecided): %s - %s" % (it.get("name"), it["stubbed"]), file=sys.stderr)
     import json
     with open(sys.argv[3] + ".meta.json", "w") as f:
         json.dump(meta, f, indent=1)
